@@ -33,6 +33,9 @@ def _ops():
         ops.append(("delete_path", p))
         for o in OIDS[:2]:
             ops.append(("set_oid", p, o))
+    for p in P[:4]:
+        ops.append(("update", p, "file", OIDS[2]))
+        ops.append(("update", p, "dir", None))
     for o in OIDS:
         ops.append(("delete_oid", o))
     for a, b in itertools.permutations(P[:5], 2):
@@ -58,6 +61,8 @@ def _apply(cache, op, types):
         cache.set_oid(op[1], op[2], FILE)
     elif k == "rename":
         cache.rename(op[1], op[2])
+    elif k == "update":
+        cache.update(op[1], FILE if op[2] == "file" else DIRECTORY, oid=op[3])
 
 
 def _invariant(cache, prov):
@@ -131,9 +136,11 @@ def run(repo, tier, seed):
                 msg = None
                 # is the id this call assigns currently held by an ancestor / descendant of its target path?
                 relative = False
-                if op[0] in ("create", "mkdir", "set_oid") and op[2] is not None:
+                assigned = op[3] if op[0] == "update" else (op[2] if op[0] in ("create", "mkdir", "set_oid") else None)
+                if assigned is not None:
+                    op_oid = assigned
                     try:
-                        held_at = cache.get_path(op[2])
+                        held_at = cache.get_path(op_oid)
                     except Exception:
                         held_at = None
                     if held_at is not None:
